@@ -19,7 +19,11 @@
   every iteration of an enclosing loop — between a discriminant read of `v` and a binding extraction
   from `v` that follows it (no other discriminant read of `v` in between) nothing writes, drops or
   moves `v`: the bindings of every arm, however many guards ran before it, are components of the
-  value that was switched on. Core Lean only.
+  value that was switched on.
+
+  A second checker, `argumentsAreConsumed` (below), reads three more facts off every node — `uses`,
+  `defs`, `hands` — and accepts an item when a record / enum / owned value handed to a call is never
+  used again before it is assigned anew: a parameter is a copy of its own. Core Lean only.
 -/
 namespace RotoV.ValueMir
 
@@ -42,7 +46,9 @@ inductive Val where
   | move (v : Nat)
   /-- not / negate / binary operation: the operands are only read -/
   | read (vs : List Nat)
-  | call (args : List Nat)
+  /-- `owned`: those of `args` whose parameter type is an aggregate (record / enum) or needs a drop —
+      the values the callee takes over -/
+  | call (args : List Nat) (owned : List Nat)
   | discr (v : Nat)
   deriving Repr
 
@@ -75,6 +81,13 @@ structure Node where
   affects : List Nat := []
   discr : List Nat := []
   binds : List Nat := []
+  /-- variables it reads, drops, moves, passes or returns, whole or a part (`clone(v.p)`,
+      `discriminant(v)`, operand, call argument, `move(v)`, `drop(v.p)`, `switch v`, `return v`) -/
+  uses : List Nat := []
+  /-- variables it assigns as a whole (`v = …`) -/
+  defs : List Nat := []
+  /-- variables of an aggregate / owned type it hands to a call -/
+  hands : List Nat := []
   deriving Repr
 
 abbrev Graph := Array Node
@@ -86,16 +99,32 @@ def Place.isVariantRead (p : Place) : Bool :=
     | .vfield _ _ => true
     | .field _ => false
 
+def Val.uses : Val → List Nat
+  | .lit => []
+  | .const => []
+  | .clone p => [p.var]
+  | .move w => [w]
+  | .read vs => vs
+  | .call args _ => args
+  | .discr w => [w]
+
+def Val.hands : Val → List Nat
+  | .call _ owned => owned
+  | _ => []
+
+def matchNode (next : Nat) (to : Place) : Val → Node
+  | .clone p => { succ := [next], affects := [to.var], binds := if p.isVariantRead then [p.var] else [] }
+  | .move w => { succ := [next], affects := [to.var, w] }
+  | .call args _ => { succ := [next], affects := to.var :: args }
+  | .discr w => { succ := [next], affects := [to.var], discr := [w] }
+  | _ => { succ := [next], affects := [to.var] }
+
 def instrNode (next : Nat) : Instr → Node
   | .assign to val =>
-    match val with
-    | .clone p => { succ := [next], affects := [to.var], binds := if p.isVariantRead then [p.var] else [] }
-    | .move w => { succ := [next], affects := [to.var, w] }
-    | .call args => { succ := [next], affects := to.var :: args }
-    | .discr w => { succ := [next], affects := [to.var], discr := [w] }
-    | _ => { succ := [next], affects := [to.var] }
+    { matchNode next to val with
+      uses := val.uses, defs := if to.proj.isEmpty then [to.var] else [], hands := val.hands }
   | .setDiscr v _ => { succ := [next], affects := [v] }
-  | .drop p => { succ := [next], affects := [p.var] }
+  | .drop p => { succ := [next], affects := [p.var], uses := [p.var] }
 
 /-- index of the first node of the block with label `l` (blocks are laid out one after the other,
     every block = its instructions and then its terminator) -/
@@ -105,12 +134,13 @@ def blockStart : List Block → Nat → Nat → Option Nat
 
 def termNode (bs : List Block) : Term → Node
   | .jump l => { succ := (blockStart bs 0 l).toList }
-  | .switch _ branches default =>
+  | .switch v branches default =>
     { succ := (branches.filterMap fun p => blockStart bs 0 p.2) ++
         (match default with
          | some l => (blockStart bs 0 l).toList
-         | none => []) }
-  | .ret _ => {}
+         | none => []),
+      uses := [v] }
+  | .ret v => { uses := [v] }
 
 def instrNodes (at_ : Nat) : List Instr → List Node
   | [] => []
@@ -185,6 +215,52 @@ def firstOffence (g : Graph) : Option (Nat × Nat) :=
 def countBinds (g : Graph) : Nat := (g.toList.map fun n => n.binds.length).sum
 def countDiscr (g : Graph) : Nat := (g.toList.map fun n => n.discr.length).sum
 
+/-! ### the second checker: a value handed to a call is consumed
+
+    `normalized_function_call` copies every argument into a temporary of its own and hands that to
+    the callee, which owns (and drops) it. On the MIR this reads: after a node hands `v` to a call,
+    NO node reads, drops, moves, passes or returns `v` (or a part of it) before `v` is assigned again
+    as a whole. Then nothing the callee does to its parameter can be seen through any name of the
+    caller: the parameter is a copy. (A variable the lowerer passed ITSELF — `f(x)` handing over `x` —
+    is read again by the next statement that mentions `x`.) The reached set is computed as above and
+    CHECKED closed; barrier and offence are parameters. -/
+
+def closureP (g : Graph) (bar : Nat → Bool) : Nat → List Nat → NSet → NSet
+  | 0, _, S => S
+  | _, [], S => S
+  | n + 1, x :: work, S =>
+    if S.has x || S.size ≤ x then closureP g bar n work S
+    else
+      let S' := S.set! x true
+      if bar x then closureP g bar n work S'
+      else closureP g bar n ((node g x).succ ++ work) S'
+
+/-- `S` is closed under successors, except through barrier nodes -/
+def closedP (g : Graph) (bar : Nat → Bool) (S : NSet) : Bool :=
+  (List.range g.size).all fun s => !S.has s || bar s || (node g s).succ.all fun t => S.has t
+
+/-- no `bad` node is reached from the successors of `a` except through a barrier node (a barrier
+    node itself is entered and examined: `t = f(t)` reads `t` before it assigns it) -/
+def okFromP (g : Graph) (bar bad : Nat → Bool) (a : Nat) : Bool :=
+  let S := closureP g bar (fuelFor g) (node g a).succ (Array.replicate g.size false)
+  (node g a).succ.all (fun t => S.has t) && closedP g bar S &&
+    (List.range g.size).all fun s => !S.has s || !bad s
+
+def argOk (g : Graph) (v a : Nat) : Bool :=
+  okFromP g (fun s => (node g s).defs.contains v) (fun s => (node g s).uses.contains v) a
+
+def argsOk (g : Graph) : Bool :=
+  (List.range g.size).all fun a => (node g a).hands.all fun v => argOk g v a
+
+/-- THE SECOND CHECKER -/
+def argumentsAreConsumed (it : Item) : Bool := argsOk (flatten it)
+
+def firstArgOffence (g : Graph) : Option (Nat × Nat) :=
+  (List.range g.size).findSome? fun a =>
+    ((node g a).hands.find? fun v => !argOk g v a).map fun v => (v, a)
+
+def countHands (g : Graph) : Nat := (g.toList.map fun n => n.hands.length).sum
+
 /-! ### decoding the dump (`verif_hooks::c03`)
 
     item  := nTypes type* nVars varTy* nParams paramVar* retTy nBlocks block*
@@ -192,7 +268,7 @@ def countDiscr (g : Graph) : Nat := (g.toList.map fun n => n.discr.length).sum
     block := label nInstr instr* term
     instr := 0 place ty val | 1 var ty variant | 2 place ty
     place := var nProj proj*        proj := 0 fieldIdx | 1 variantIdx fieldIdx
-    val   := 0 | 1 | 2 place | 3 var | 4 n var* | 5 n (var paramTy)* | 6 var
+    val   := 0 | 1 | 2 place | 3 var | 4 n var* | 5 n (var paramTy)* | 6 var      (paramTy: index into type*)
     term  := 0 label | 1 var nBranches (value label)* hasDefault [label] | 2 var -/
 
 abbrev D := StateT (List Nat) Option
@@ -208,16 +284,20 @@ def times {α} (n : Nat) (p : D α) : D (List α) := do
     out := (← p) :: out
   pure out.reverse
 
-def dType : D Unit := do
-  let _ ← num
+/-- a type of the item's table; the answer: values of it are taken over by a callee that receives
+    one (it needs a drop, or it is a record / an enum) -/
+def dType : D Bool := do
+  let nd ← num
   match ← num with
-  | 0 => pure ()
+  | 0 => pure (nd != 0)
   | 1 => do
     let n ← num
     let _ ← times n num
+    pure true
   | 2 => do
     let n ← num
     let _ ← times n (do let k ← num; let _ ← times k num)
+    pure true
   | _ => failure
 
 def dProj : D Proj := do
@@ -233,7 +313,7 @@ def dPlace : D Place := do
   let n ← num
   pure ⟨v, ← times n dProj⟩
 
-def dVal : D Val := do
+def dVal (tys : List Bool) : D Val := do
   match ← num with
   | 0 => pure .lit
   | 1 => pure .const
@@ -244,16 +324,17 @@ def dVal : D Val := do
     pure (.read (← times n num))
   | 5 => do
     let n ← num
-    pure (.call (← times n (do let v ← num; let _ ← num; pure v)))
+    let args ← times n (do let v ← num; let t ← num; pure (v, tys.getD t false))
+    pure (.call (args.map (·.1)) ((args.filter (·.2)).map (·.1)))
   | 6 => pure (.discr (← num))
   | _ => failure
 
-def dInstr : D Instr := do
+def dInstr (tys : List Bool) : D Instr := do
   match ← num with
   | 0 => do
     let p ← dPlace
     let _ ← num
-    pure (.assign p (← dVal))
+    pure (.assign p (← dVal tys))
   | 1 => do
     let v ← num
     let _ ← num
@@ -276,22 +357,22 @@ def dTerm : D Term := do
   | 2 => pure (.ret (← num))
   | _ => failure
 
-def dBlock : D Block := do
+def dBlock (tys : List Bool) : D Block := do
   let l ← num
   let n ← num
-  let is ← times n dInstr
+  let is ← times n (dInstr tys)
   pure ⟨l, is, ← dTerm⟩
 
 def dItem : D Item := do
   let nt ← num
-  let _ ← times nt dType
+  let tys ← times nt dType
   let nv ← num
   let _ ← times nv num
   let np ← num
   let _ ← times np num
   let _ ← num
   let nb ← num
-  pure ⟨← times nb dBlock⟩
+  pure ⟨← times nb (dBlock tys)⟩
 
 def decodeItem (nums : List Nat) : Option Item :=
   match dItem.run nums with
